@@ -26,6 +26,7 @@ VALUES = {
     'int': 3, 'negint': -2, 'float': 0.123456789, 'negfloat': -0.1234567, 'intfloat': 2.0, 'big': 123456.7890123, 'nan': float('nan'), 'inf': float('inf'), 'ninf': -float('inf'),
     'none': None, 'str': 'a"b\nc,é\\', 'empty': '', 'list': [1, 2.5, 'x'], 'tuple': (1, 0.000004, None), 'nested': [[1.23456789, [2]], (3,)], 'dict': {'k': 1.999999, 'j': [1]},
     'emptylist': [], 'bool': True, 'reward': BinaryReward(1), 'mixeddict': {0: 1, 'other': [2], 1: 0.5},
+    'surrogate': 'x\udce9y\u6f22\u2028',      # a lone surrogate (os.fsdecode of a non-UTF-8 name) next to ordinary non-ASCII text
 }
 KINDS = list(VALUES)
 
@@ -134,12 +135,12 @@ def shape(sym, k1, k2):
 # ---------------------------------------------------------------------------------------------------
 def restored_params(tier):
     ks = [('float','list'),('nested','str'),('dict','none'),('tuple','negfloat'),('nan','big')] if tier == 'quick' else [(a,b) for a in KINDS for b in KINDS[::4] if 'reward' not in (a,b)]
-    return [dict(ka=a, kb=b, gz=g) for a,b in ks for g in (False,True)]
+    return [dict(ka=a, kb=b, gz=g) for a,b in ks for g in (False,True)] + [dict(ka=a, kb=b, gz=False, drop=True) for a,b in ks[:2 if tier == 'quick' else 5]]
 
 @obligation('C07','restored', bounds={'quick':"restored runs: 3 triples (one environment x three learners) whose evaluator rows carry two value kinds (5 kind pairs); the log of a complete run is cut at a solver-chosen point - every record boundary, and for plain files also 1 byte, 5 bytes and half a record before the end of each triple record (a torn record) - and the same experiment is run again on it, then once more: Result of the restored run == Result.from_file == Result without a file",
                                       'thorough':"19 x 5 kind pairs"},
             functions=FUNCS, params=restored_params, classify=_classify, budget={'quick':100,'thorough':1500})
-def restored(sym, ka, kb, gz):
+def restored(sym, ka, kb, gz, drop=False):
     rows = [{'i': 0, 'a': VALUES[ka]}, {'i': 1, 'b': VALUES[kb], 7: 1.5}, {'i': 2, 'a': VALUES[ka], 'b': VALUES[kb]}]
     def build():
         return Experiment([(PEnv({'name':'E','pa':VALUES[ka]}), PLearner({'family':'F','tag':j,'pb':VALUES[kb]}), ShapeEval([dict(r, j=j) for r in rows], {'vtag':'V'})) for j in range(3)])
@@ -166,9 +167,18 @@ def restored(sym, ka, kb, gz):
                 for back in (1, 5, (b-a)//2):
                     if b-back > a: cuts.append(b-back)
         cuts = sorted(set(cuts))
-        k = cuts[unwrap_int(sym, len(cuts))]
-        sym.note(cut=k, total=len(raw), gz=gz)
-        open(f,'wb').write(raw[:k])
+        if drop:
+            # a record that never reached the log (a component whose params raised once, a killed multi-process run whose
+            # workers report in any order): one whole record behind the version and experiment records is absent
+            lines = raw.split(b'\n')[:-1]
+            j = 2 + unwrap_int(sym, len(lines)-2)
+            k = -j
+            sym.note(dropped_record=lines[j][:40].decode('ascii','replace'))
+            open(f,'wb').write(b''.join(l+b'\n' for i,l in enumerate(lines) if i != j))
+        else:
+            k = cuts[unwrap_int(sym, len(cuts))]
+            sym.note(cut=k, total=len(raw), gz=gz)
+            open(f,'wb').write(raw[:k])
         exp.reset_context()
         try: res2 = run(f)
         except Exception as e: sym.fail(f"restored run raised {type(e).__name__}: {str(e)[:90]} (file cut at byte {k} of {len(raw)})")
